@@ -628,7 +628,7 @@ class InterpolatableFunction(ABC):
             fxValid = fx[validIndices]
         else:
             ## fx is 1D array
-            validIndices = np.all(np.isfinite(fx))
+            validIndices = np.isfinite(fx)
             fxValid = np.ravel(fx[validIndices])
 
         xValid = np.ravel(x[validIndices])
